@@ -166,6 +166,10 @@ def _inline_new_helpers(ctx, rel, qual, got, exp, opts, kw):
         return None
 
 
+INPLACE_DUNDERS = {'__iadd__', '__isub__', '__imul__', '__ifloordiv__', '__itruediv__', '__imod__', '__ipow__', '__ilshift__', '__irshift__',
+                   '__iand__', '__ior__', '__ixor__', '__imatmul__', '__iconcat__'}
+
+
 def cmp_many(ctx, rel, table, opts=None, prefix=''):
     """table: [(qualname, spec_src)]"""
     ok = True
@@ -306,6 +310,9 @@ def integrity(ctx, rels):
                             kinds.append(d.attr)
                         else:
                             bad.append('line %d: decorator on %s%s changes what the definition means' % (n.lineno, prefix, n.name))
+                    if prefix and n.name in INPLACE_DUNDERS:
+                        # the evaluator reads `x op= v` on crysp objects as x = x op v (no class defines an in-place operator)
+                        bad.append('line %d: %s%s makes `op=` update objects in place, which the comparisons do not model' % (n.lineno, prefix, n.name))
                     key = n.name
                     if key in seen and not (('property' in seen[key] or 'setter' in seen[key] or 'deleter' in seen[key]) and kinds):
                         bad.append('line %d: %s%s is defined twice (the later definition wins)' % (n.lineno, prefix, n.name))
